@@ -1322,9 +1322,19 @@ Ltac gen_leaf :=
 Lemma write_dir_entry_gen id : pres P (write_dir_entry id).
 Proof. unfold write_dir_entry. repeat pres_step gen_leaf. Qed.
 
+Lemma with_dir_entry_mut_inner_gen id f : pres P (with_dir_entry_mut_inner id f).
+Proof.
+  unfold with_dir_entry_mut_inner. repeat pres_step ltac:(first [apply write_dir_entry_gen|gen_leaf]).
+Qed.
+
+(* on failure only [dirs] is put back: the tables [same] looks at are those of the inner run *)
 Lemma with_dir_entry_mut_gen id f : pres P (with_dir_entry_mut id f).
 Proof.
-  unfold with_dir_entry_mut. repeat pres_step ltac:(first [apply write_dir_entry_gen|gen_leaf]).
+  intros s Hs. destruct (with_dir_entry_mut_inner_gen id f s Hs) as [HI HQ].
+  unfold with_dir_entry_mut. destruct (with_dir_entry_mut_inner id f s) as [s1 r]. cbn [fst snd] in *.
+  assert (HP' : P (w_dirs s1 (dirs s))) by (apply (Hst s1); [repeat split|exact HI]).
+  destruct r as [u| | |]; cbn [fst snd]; (split; [assumption|]); try discriminate.
+  intros a _. exact HI.
 Qed.
 
 Lemma append_mini_sector_gen : pres P append_mini_sector.
@@ -1711,10 +1721,15 @@ Proof.
       repeat pres_step ltac:(first [mfull_leaf (GL L)
                                     |apply pres_modify; intros ? Hx; exact Hx]). }
     intros ?. apply spec_get_bind. intros s2 H2. cbv zeta.
-    (* the mini stream grows first: the MiniFAT cache is untouched *)
+    eapply spec_bind with (Q := fun _ s => mf (GL L) s /\ same s2 s).
+    { eapply spec_conseq; [apply (root_entry_pres (fun s => mf (GL L) s /\ same s2 s))| | |]; auto.
+      intros s [H _]. exact (HGI s H). }
+    intros r.
+    (* the mini stream grows first (or not at all): the MiniFAT cache is untouched *)
     eapply spec_bind with (Q := fun _ => mf (fun m => GL L m /\ m = minifat s2)).
     { apply spec_pre with (P := mf (fun m => GL L m /\ m = minifat s2)).
-      - apply spec_weaken; [apply append_mini_sector_mf|].
+      - apply spec_weaken;
+          [destruct (_ <? _); [apply append_mini_sector_mf|apply pres_unchanged; reflexivity]|].
         unfold mf. intros s [[H _] _]. exact H.
       - unfold mf. intros s [Hg (_ & _ & Hm)]. auto. }
     intros ?.
